@@ -60,16 +60,15 @@ def run_case(case, col=None):
                 # e is exactly one encoding (the reference reader says so): handing part of it back is consuming less than one
                 F('oneshot-' + sname, 'short', 'decode(e) of exactly one encoding leaves %s unread | e=%s' % (bytes(d0.rest).hex()[:60], e.hex()[:120]))
             good = d0.ok and d0.rest == b''
-            if good and spec is not None:
-                good = absval.equal(T, d0.value, v, spec)[0]
-            elif good:
-                re = lib.encode('DER', d0.value)
-                good = re.ok and re.value == x690.der(T, v)
             if not good:
                 ok_all = False
                 if col is not None:
-                    col.exclude('precondition: decode(e) alone fails, leaves a remainder or returns another value (C09 / C16)')
+                    col.exclude('precondition: decode(e) alone fails or leaves a remainder (C09 / C16)')
                 continue
+            # (whether decode(e) is the right value is C01/C09's business: what follows compares decode(e + t) with decode(e))
+            right = absval.equal(T, d0.value, v, spec)[0] if spec is not None else True
+            if not right:
+                ok_all = False
             base = _snap(T, d0.value, spec)
             for t in tails:
                 d = lib.decode(codec, e + t, spec)
@@ -118,8 +117,11 @@ def run_case(case, col=None):
         for e, _c in usable:
             tot += len(e)
             ends.append(tot)
-        for sizes, arrivals, eof_tick in case.get('clocked') or []:
-            st = streams.ClockSeekable(data, sizes, arrivals, eof_tick)
+        for ci, (sizes, arrivals, eof_tick) in enumerate(case.get('clocked') or []):
+            # (alternately seekable and non-seekable; behind the caching wrapper the position is the number of octets the
+            # source has handed out)
+            piped = bool(ci % 2)
+            st = (streams.ClockPipe if piped else streams.ClockSeekable)(data, sizes, arrivals, eof_tick)
             got, steps, err = [], 0, None
             try:
                 for obj in lib.DEC['BER'].StreamingDecoder(st, asn1Spec=sch):
@@ -129,12 +131,12 @@ def run_case(case, col=None):
                         break
                     if isinstance(obj, lib.error.SubstrateUnderrunError):
                         continue
-                    got.append(st.tell())
+                    got.append(st.c.handed if piped else st.tell())
             except lib.error.PyAsn1Error as ex:
                 err = harness.exc_sig(ex)
             except Exception as ex:
                 err = 'leak ' + harness.exc_sig(ex)
-            where = 'chunks=%s arrive at read ticks %s, end at %d | stream=%s' % (sizes[:20], arrivals[:20], eof_tick, data.hex()[:160])
+            where = '%s, chunks=%s arrive at read ticks %s, end at %d | stream=%s' % ('non-seekable' if piped else 'seekable', sizes[:20], arrivals[:20], eof_tick, data.hex()[:160])
             if err is not None:
                 F('stream-clocked', 'raises', '%s after %d of %d objects | %s' % (err, len(got), len(ends), where), err)
             elif got != ends:
